@@ -14,6 +14,8 @@ from .model import Ref, runs_of, snap
 # ----------------------------------------------------------------------------- node universes
 INT_POOL = [0, 1, 2, 3, -1, 7, 10, -5, 42, 100, -2, 1000, 2 ** 40, -300]     # incl. hash(-1) == hash(-2) and ints outside the small-int cache
 STR_POOL = ['a', 'b', 'c', 'A', '', 'é', 'n1', 'x y', 'ß', '0', '+', '-']      # '+' / '-' are also the stream's op symbols
+# '_'-free strings for the path algorithms (occurrence names are '<id>_<time>'): blanks, a line feed, the empty string, dots and signs
+PATH_STR_POOL = ['a', 'b', 'c', 'b\nc', 'x y', '', '-1', '7', 'é', 'k9', 'a.b', '\n', 'c\n']
 SAFE_STR_POOL = ['a', 'b', 'c', 'A', 'n1', 'é', 'ß', 'zz', 'Q', 'k9', '0', '7', '10', '-1']     # incl. strings that look like ints
 TUPLE_POOL = [[1, 2], [2, 1], [0], [], ['a', 1], [1, 2, 3]]
 FSET_POOL = [[1], [1, 2], [], [3], ['a'], [2, 3]]
@@ -122,6 +124,8 @@ def universe(draw, kinds=('int', 'str', 'tuple', 'fset', 'mixed', 'obj'), lo=3, 
         pool = STR_POOL
     elif kind == 'safestr':
         pool = SAFE_STR_POOL
+    elif kind == 'pathstr':
+        pool = PATH_STR_POOL
     elif kind == 'tuple':
         pool = [{"tuple": p} for p in TUPLE_POOL]
     elif kind == 'fset':
